@@ -118,6 +118,9 @@ fn replay(path: &str, expect_class: Option<&str>) -> i32 {
             return EXIT_HARNESS;
         }
     };
+    if v["kind"].as_str() == Some("miri") {
+        return simcore::miri::replay(PROPERTY, "c18", "c18_threads", &v, path);
+    }
     let script = match Script::from_json(&v["script"]) {
         Ok(s) => s,
         Err(e) => {
@@ -203,6 +206,8 @@ fn main() {
     let mut out = simcore::verif_root().join("evidence").join("C18.json");
     let mut replay_file: Option<String> = None;
     let mut no_confirm = false;
+    let mut no_miri = false;
+    let mut miri_seeds_override: Option<u64> = None;
     let mut expect_class: Option<String> = None;
     // (phase, k, W) when this process is a worker
     let mut worker_proc: Option<(String, u64, u64)> = None;
@@ -246,6 +251,11 @@ fn main() {
                 replay_file = Some(args[i].clone());
             }
             "--no-confirm" => no_confirm = true,
+            "--no-miri" => no_miri = true,
+            "--miri-seeds" => {
+                i += 1;
+                miri_seeds_override = args[i].parse().ok();
+            }
             "--expect-class" => {
                 i += 1;
                 expect_class = Some(args[i].clone());
@@ -380,6 +390,22 @@ fn main() {
     };
     total.harness_errors.extend(phase_errors.iter().cloned());
 
+    // ---- scenario C: threads sharing Formatter objects, under Miri's seeded scheduler ----
+    let miri_seeds = miri_seeds_override.unwrap_or(if thorough { 128 } else { 8 });
+    let rates: Vec<&str> = if thorough { vec!["0.05", "0.5"] } else { vec!["0.1"] };
+    let miri_res = if no_miri || !total.violations.is_empty() {
+        None
+    } else {
+        Some(simcore::miri::run("c18", "c18_threads", miri_seeds, &rates, seed))
+    };
+    if let Some(m) = &miri_res {
+        match (&m.failure, &m.skipped) {
+            (Some((s, r, _)), _) => println!("miri: FAILURE at scheduler seed {} preemption rate {}", s, r),
+            (None, Some(why)) => println!("miri: skipped: {}", why.lines().last().unwrap_or("")),
+            (None, None) => println!("miri: {} scheduler seeds clean in {:.1}s", m.seeds_run, m.wall_s),
+        }
+    }
+
     // ---- violations: minimise, write replay, confirm in a fresh process ----
     let mut exit = EXIT_OK;
     let mut violation_lines = Vec::new();
@@ -472,6 +498,17 @@ fn main() {
             exit = EXIT_HARNESS;
         }
     }
+    if let Some(m) = &miri_res {
+        if let Some((s, rate, text)) = &m.failure {
+            n_viol += 1;
+            let path = simcore::verif_root().join("replays").join(format!("C18-miri-{}-{}.json", seed, s));
+            let body = json!({"property": PROPERTY, "kind": "miri", "miri_seed": s, "preemption_rate": rate, "workload_seed": seed, "detail": text});
+            let _ = simcore::evidence::write_json_atomic(&path, &body);
+            println!("{}", text);
+            violation_lines.push(format!("VIOLATION property={} replay={}", PROPERTY, path.display()));
+            exit = EXIT_VIOLATION;
+        }
+    }
     if !total.harness_errors.is_empty() && exit == EXIT_OK {
         for e in total.harness_errors.iter().take(5) {
             eprintln!("harness error: {e}");
@@ -539,6 +576,10 @@ fn main() {
             "ops_by_type": total.by_type,
             "fault_kinds": fault_kinds,
             "probes": probes,
+            "interleavings": match &miri_res {
+                Some(m) => json!({"engine": "Miri seeded scheduler over real std::thread; threads with their own clocks share Formatter objects", "scheduler_seeds_run": m.seeds_run, "preemption_rates": rates, "wall_s": m.wall_s, "skipped": m.skipped}),
+                None => json!({"skipped": "--no-miri or earlier violation"}),
+            },
             "batch_hash": format!("{:016x}", total.batch_hash),
             "workers": workers,
             "components": {
